@@ -14,18 +14,6 @@ Context (nos : N -> N).
 Hypothesis nos_inj : forall a b, nos a = nos b -> a = b.
 Notation Sim := (Sim ivar nos).
 
-Lemma seq_ret_r : forall r, seq r (fun st => (st, [], Ok)) = r.
-Proof. intros [[st e] [|k]]; cbn; [now rewrite app_nil_r|reflexivity]. Qed.
-
-Lemma exec_list_app : forall c a b st, exec_list c (a ++ b) st = seq (exec_list c a st) (exec_list c b).
-Proof.
-  intros c a. induction a as [|o a IH]; intros b st; cbn [app exec_list].
-  - unfold seq. cbn [exec_list]. destruct (exec_list c b st) as [[st2 e2] o2]. reflexivity.
-  - destruct (exec c o st) as [[st1 e1] [|k]]; [|reflexivity].
-    unfold seq. rewrite IH. unfold seq. destruct (exec_list c a st1) as [[st2 e2] [|k2]]; [|reflexivity].
-    destruct (exec_list c b st2) as [[st3 e3] o3]. now rewrite app_assoc.
-Qed.
-
 Lemma Sim_for_each_unit : forall {A} (c : cfg) (F : A -> op) (f : A -> unit -> MP unit) (l : list A),
   (forall a, In a l -> Sim (f a tt) (exec c (F a))) ->
   Sim (for_each l tt f) (exec_list c (map F l)).
